@@ -19,10 +19,12 @@ import (
 	apierrors "k8s.io/apimachinery/pkg/api/errors"
 	"k8s.io/apimachinery/pkg/api/resource"
 	metav1 "k8s.io/apimachinery/pkg/apis/meta/v1"
+	k8sruntime "k8s.io/apimachinery/pkg/runtime"
 	"k8s.io/apimachinery/pkg/runtime/schema"
 	"k8s.io/apimachinery/pkg/types"
 	clock "k8s.io/utils/clock/testing"
 	"sigs.k8s.io/controller-runtime/pkg/client"
+	ctrlfake "sigs.k8s.io/controller-runtime/pkg/client/fake"
 	"sigs.k8s.io/controller-runtime/pkg/client/interceptor"
 	"sigs.k8s.io/controller-runtime/pkg/reconcile"
 
@@ -50,17 +52,17 @@ var wrNames = []string{"WOk", "WConflict", "WNotFound", "WErr"}
 var poutNames = []string{"POk", "PInsufficient", "PNotReady", "PCreateErr", "PGeneric"}
 
 type plan struct {
-	Fin, Create, DelLaunch   int
-	ListReg                  bool
-	Hook, HookD              int // 0 ready, 1 pending HookD seconds, 2 requeue, 3 error
-	NPatchReg, PoolReg       int
-	ListInit                 bool
-	NPatchInit               int
-	PoolLive1, DelLive1      int
-	PoolLive2, DelLive2      int
-	Patch, Status            int
-	PDelErr                  bool
-	Term, Unfin              int
+	Fin, Create, DelLaunch int
+	ListReg                bool
+	Hook, HookD            int // 0 ready, 1 pending HookD seconds, 2 requeue, 3 error
+	NPatchReg, PoolReg     int
+	ListInit               bool
+	NPatchInit             int
+	PoolLive1, DelLive1    int
+	PoolLive2, DelLive2    int
+	Patch, Status          int
+	PDelErr                bool
+	Term, Unfin            int
 }
 
 func (p plan) hook() string {
@@ -251,8 +253,24 @@ type slot struct {
 
 func newSlot() *slot {
 	s := &slot{}
-	s.c = kit.NewClient(s.funcs())
+	s.c = newLocalClient(s.funcs())
 	return s
+}
+
+// newLocalClient is kit.NewClient over a scheme that only holds the core group and karpenter.sh/v1:
+// controller-runtime's fake client rebuilds a REST mapper over the whole scheme on every write, which
+// dominates the run time with client-go's full scheme.
+func newLocalClient(funcs interceptor.Funcs) client.WithWatch {
+	sch := k8sruntime.NewScheme()
+	must(corev1.AddToScheme(sch))
+	gv := schema.GroupVersion{Group: "karpenter.sh", Version: "v1"}
+	metav1.AddToGroupVersion(sch, gv)
+	sch.AddKnownTypes(gv, &v1.NodePool{}, &v1.NodePoolList{}, &v1.NodeClaim{}, &v1.NodeClaimList{})
+	return ctrlfake.NewClientBuilder().WithScheme(sch).
+		WithStatusSubresource(&v1.NodeClaim{}, &v1.NodePool{}, &corev1.Node{}).
+		WithIndex(&corev1.Node{}, "spec.providerID", func(o client.Object) []string { return []string{o.(*corev1.Node).Spec.ProviderID} }).
+		WithIndex(&v1.NodeClaim{}, "status.providerID", func(o client.Object) []string { return []string{o.(*v1.NodeClaim).Status.ProviderID} }).
+		WithInterceptorFuncs(funcs).Build()
 }
 
 // wipe removes every object a history may have left behind.
